@@ -28,14 +28,19 @@ class C02(ChanSpec):
         lines += [l for l in so.split("\n") if l.startswith("C14 head async") or l.startswith("#case")]
         if rc != 0:
             lines.append("C14 crash harness-exit-%d" % rc)
+        # sustained traffic in lock-step with the transport (every round of the sender finds the queue refilled), then silence
+        rc, so, se = core.run([os.path.join(core.BIN, "nvh"), "-prop", "C02", "-seed", str(seed), "-count", "1"], timeout=300)
+        lines += [l for l in so.split("\n") if l]
+        if rc != 0:
+            lines.append("C02 crash harness-exit-%d" % rc)
         return lines
 
     def nontrivial(self, line, answer):
         t = line.split()
-        return t[1] == "end" or t[0] == "C14"
+        return t[1] in ("end", "burst") or t[0] == "C14"
 
     def extra_coverage(self, pairs):
-        cov = super().extra_coverage([(l, a) for l, a in pairs if not l.startswith("C14 ")])
+        cov = super().extra_coverage([(l, a) for l, a in pairs if not l.startswith("C14 ") and l.split()[1] != "burst"])
         cov["streamed_messages_compared"] = sum(1 for l, a in pairs if l.startswith("C14 "))
         return cov
 
